@@ -85,9 +85,25 @@ def rule_order(ck: Check, repo: Repo) -> None:
                 return ("convert", text)
             return None
 
+        def raises(self, text, call, it):
+            # the write of REUSE.toml can fail (encoding of the text, a directory of that name, a full disk)
+            if ast.unparse(call.func).split(".")[-1] in ("write_text", "write_bytes"):
+                return ["OSError"]
+            return []
+
     leaves = tabulate(fn, H())
     for d, leaf, _ in leaves:
         fx = [e for e in leaf.events if e[0] != "convert"]
+        failed = [k for k, v in d.items() if k.startswith("raise[OSError]@") and v]
+        if failed:
+            r.instance("path:" + show_valuation(d), {"valuation": "dep5 exists, the write of REUSE.toml fails", "outcome": leaf.outcome[:2],
+                                                     "effects": [repr(e) for e in fx]})
+            after = [e for e in fx if e[0] in ("unlink", "remove", "rename", "replace", "rmtree")]
+            if after or leaf.outcome[0] != "raise":
+                r.violation(qual, "dep5 is removed although REUSE.toml could not be written",
+                            f"when write_text fails the command still performs {[(e[0], e[1]) for e in after]} (outcome {leaf.outcome[:2]}):"
+                            f" the project is left with neither file", repo.loc(fn), {"valuation": d})
+            continue
         r.instance("path:" + show_valuation(d), {"valuation": show_valuation(d), "outcome": leaf.outcome,
                                                  "effects": [repr(e) for e in fx]})
         if d.get("dep5_exists") is False:
